@@ -7,6 +7,7 @@ import (
 	"errors"
 	"fmt"
 	gio "io"
+	"regexp"
 
 	"github.com/nspcc-dev/neo-go/pkg/core/block"
 	"github.com/nspcc-dev/neo-go/pkg/core/dao"
@@ -46,6 +47,10 @@ type kind struct {
 	// jsonEnc/jsonDec: JSON form, nil when none is defined.
 	jsonEnc func(v any) ([]byte, error)
 	jsonDec func(b []byte) (any, error)
+	// invariant: what every accepted value of the type satisfies by the decoder's own documentation.
+	invariant func(v any) error
+	// decFailKey classifies a decoder error on the encoding of a valid value ("" = unclassified).
+	decFailKey func(v any, e []byte, err error) string
 	// sameEncoding compares a received encoding with the re-encoding when plain byte equality is not the right
 	// notion (compressed frames: compare the payload bytes).
 	sameEncoding func(in, e1 []byte) bool
@@ -65,13 +70,13 @@ type kind struct {
 	// decMayFail: the decoder has documented limits the encoder does not have (JSON nesting depth); extra decides.
 	decMayFail bool
 	// expect maps a drawn value to the value its round trip is documented to give (nil: the value itself).
-	expect func(v any) any
-	text       bool   // JSON text family (mutations differ)
-	maxCount   uint64 // cap for injected counts (0 = none); see known hangs in c17.go
-	nodeterm   bool   // encoding order is not deterministic (map iteration): compare dumps only
+	expect   func(v any) any
+	text     bool   // JSON text family (mutations differ)
+	maxCount uint64 // cap for injected counts (0 = none); see known hangs in c17.go
+	nodeterm bool   // encoding order is not deterministic (map iteration): compare dumps only
 	// nodetermFn: the same for particular encodings (LZ4 output depends on a pooled, uncleared hash table).
 	nodetermFn func(e []byte) bool
-	weight     int    // relative frequency in the value / byte checks
+	weight     int // relative frequency in the value / byte checks
 }
 
 type altPath struct {
@@ -296,6 +301,34 @@ func aerDump(v any) string {
 
 // ---- kinds ------------------------------------------------------------------------------------------------------
 
+// txInvariant: the structural rules Transaction decoding documents (isValid and the count limits).
+func txInvariant(v any) error {
+	tx := v.(*transaction.Transaction)
+	switch {
+	case len(tx.Signers) == 0:
+		return errors.New("accepted transaction has no signers")
+	case len(tx.Signers)+len(tx.Attributes) > transaction.MaxAttributes:
+		return fmt.Errorf("accepted transaction has %d signers + %d attributes", len(tx.Signers), len(tx.Attributes))
+	case len(tx.Script) == 0 || len(tx.Script) > transaction.MaxScriptLength:
+		return fmt.Errorf("accepted transaction has a script of %d bytes", len(tx.Script))
+	case tx.Version != 0 || tx.SystemFee < 0 || tx.NetworkFee < 0 || tx.SystemFee+tx.NetworkFee < tx.SystemFee:
+		return errors.New("accepted transaction has a bad version or fees")
+	}
+	for i := range tx.Signers {
+		for j := i + 1; j < len(tx.Signers); j++ {
+			if tx.Signers[i].Account == tx.Signers[j].Account {
+				return errors.New("accepted transaction has duplicate signers")
+			}
+		}
+		for _, r := range tx.Signers[i].Rules {
+			if d := condDepth(r.Condition); d > transaction.MaxConditionNesting {
+				return fmt.Errorf("accepted transaction has a witness condition nested %d deep", d)
+			}
+		}
+	}
+	return nil
+}
+
 func txBytesInBlock(b []byte) []byte {
 	var hdr block.Header
 	hb, _, _ := encodeKind(kindBy["header"], &hdr)
@@ -324,8 +357,42 @@ func init() {
 		build: func(t *tape) any { s := buildSigner(t, t.u160()); return &s },
 		enc:   serEnc, dec: serDec[transaction.Signer](nil), jsonEnc: je, jsonDec: jd,
 	})
+	signerInv := func(v any) error {
+		for _, r := range v.(*transaction.Signer).Rules {
+			if d := condDepth(r.Condition); d > transaction.MaxConditionNesting {
+				return fmt.Errorf("accepted signer has a witness condition nested %d deep (limit %d)", d, transaction.MaxConditionNesting)
+			}
+		}
+		return nil
+	}
+	kindBy["signer"].invariant = signerInv
+	addKind(&kind{name: "signer-json", weight: 4, text: true, whole: true,
+		build: func(t *tape) any { s := buildSigner(t, t.u160()); return &s },
+		enc: func(v any, w gio.Writer) error {
+			b, err := json.Marshal(v)
+			if err != nil {
+				return err
+			}
+			_, err = w.Write(b)
+			return err
+		},
+		dec: func(b []byte) (any, int, error) {
+			s := new(transaction.Signer)
+			if err := json.Unmarshal(b, s); err != nil {
+				return nil, 0, err
+			}
+			return s, len(b), nil
+		},
+		invariant: signerInv,
+	})
 	je, jd = jsonOf[transaction.WitnessRule](nil)
 	addKind(&kind{name: "rule",
+		invariant: func(v any) error {
+			if d := condDepth(v.(*transaction.WitnessRule).Condition); d > transaction.MaxConditionNesting {
+				return fmt.Errorf("accepted rule has a witness condition nested %d deep (limit %d)", d, transaction.MaxConditionNesting)
+			}
+			return nil
+		},
 		build: func(t *tape) any { r := buildRule(t); return &r },
 		enc:   serEnc, dec: serDec[transaction.WitnessRule](nil), jsonEnc: je, jsonDec: jd,
 		size: func(v any) (int, bool) { return io.GetVarSize(v), true },
@@ -403,7 +470,7 @@ func init() {
 		enc:   serEnc, dec: serDec[transaction.Transaction](nil),
 		ident: txIdent,
 		size:  func(v any) (int, bool) { return v.(*transaction.Transaction).Size(), true },
-		alt:   txAlt, extra: txExtra,
+		alt:   txAlt, extra: txExtra, invariant: txInvariant,
 	})
 	addKind(&kind{name: "tx-json", weight: 3,
 		build: func(t *tape) any { return buildTx(t, txOpts{noReserved: true, scriptMax: 2000}) },
@@ -445,10 +512,22 @@ func init() {
 		},
 		ident: txIdent,
 		size:  func(v any) (int, bool) { return v.(*transaction.Transaction).Size(), true },
-		alt:   txAlt,
+		alt:   txAlt, invariant: func(v any) error {
+			if err := txInvariant(v); err != nil {
+				return err
+			}
+			if tx := v.(*transaction.Transaction); len(tx.Scripts) != len(tx.Signers) {
+				return fmt.Errorf("accepted transaction has %d witnesses for %d signers", len(tx.Scripts), len(tx.Signers))
+			}
+			return nil
+		},
 	})
 	addKind(&kind{name: "tx-hashable", weight: 2, whole: true,
-		build: func(t *tape) any { tx := buildTx(t, txOpts{scriptMax: 300}); tx.Scripts = []transaction.Witness{}; return tx },
+		build: func(t *tape) any {
+			tx := buildTx(t, txOpts{scriptMax: 300})
+			tx.Scripts = []transaction.Witness{}
+			return tx
+		},
 		enc: func(v any, w gio.Writer) error {
 			b, err := v.(*transaction.Transaction).EncodeHashableFields()
 			if err != nil {
@@ -481,7 +560,7 @@ func init() {
 			enc:   serEnc, dec: serDec[block.Header](prepH),
 			ident:   func(v any) string { return "hash=" + hx(v.(*block.Header).Hash()) },
 			size:    func(v any) (int, bool) { return io.GetVarSize(v), true },
-			jsonEnc: je, jsonDec: jd,
+			jsonEnc: je, jsonDec: jd, extra: headerExtra,
 		})
 		prepB := func(b *block.Block) { b.StateRootEnabled = sr }
 		je, jd = jsonOf[block.Block](prepB)
@@ -584,6 +663,21 @@ func init() {
 			},
 			ident: msgIdent, dump: msgDump,
 			nodetermFn: func(e []byte) bool { return len(e) > 0 && e[0]&byte(network.Compressed) != 0 },
+			decFailKey: func(v any, e []byte, err error) string {
+				// A compressed frame which a reference LZ4 block decoder turns back into the payload bytes.
+				m := v.(*network.Message)
+				if len(e) == 0 || e[0]&byte(network.Compressed) == 0 {
+					return ""
+				}
+				ps := &segWriter{}
+				if serEnc(m.Payload, ps) != nil {
+					return ""
+				}
+				if pl, ok := framePayload(e); ok && bytes.Equal(pl, ps.buf.Bytes()) {
+					return "lz4-decoder-rejects-valid-block"
+				}
+				return ""
+			},
 			sameEncoding: func(in, e1 []byte) bool {
 				a, ok1 := framePayload(in)
 				b, ok2 := framePayload(e1)
@@ -600,7 +694,9 @@ func init() {
 	addKind(&kind{name: "mptinv", weight: 1, build: func(t *tape) any { return payload.NewMPTInventory(buildHashes(t, payload.MaxMPTHashesCount)) }, enc: serEnc, dec: serDec[payload.MPTInventory](nil)})
 	addKind(&kind{name: "mptdata", build: func(t *tape) any { return buildMPTData(t) }, enc: serEnc, dec: serDec[payload.MPTData](nil)})
 	addKind(&kind{name: "getblocks", weight: 1, build: func(t *tape) any { return payload.NewGetBlocks(t.u256(), buildCount(t, 32767)) }, enc: serEnc, dec: serDec[payload.GetBlocks](nil)})
-	addKind(&kind{name: "getblockbyindex", weight: 1, build: func(t *tape) any { return payload.NewGetBlockByIndex(t.u32(), buildCount(t, payload.MaxHeadersAllowed)) }, enc: serEnc, dec: serDec[payload.GetBlockByIndex](nil)})
+	addKind(&kind{name: "getblockbyindex", weight: 1, build: func(t *tape) any {
+		return payload.NewGetBlockByIndex(t.u32(), buildCount(t, payload.MaxHeadersAllowed))
+	}, enc: serEnc, dec: serDec[payload.GetBlockByIndex](nil)})
 	addKind(&kind{name: "ping", weight: 1, build: func(t *tape) any {
 		return &payload.Ping{LastBlockIndex: t.u32(), Timestamp: t.u32(), Nonce: t.u32()}
 	}, enc: serEnc, dec: serDec[payload.Ping](nil)})
@@ -608,7 +704,7 @@ func init() {
 		ident: func(v any) string { return "hash=" + hx(v.(*payload.MerkleBlock).Hash()) }})
 	addKind(&kind{name: "extensible", weight: 3, build: func(t *tape) any { return buildExtensible(t) }, enc: serEnc, dec: serDec[payload.Extensible](nil),
 		ident: func(v any) string { return "hash=" + hx(v.(*payload.Extensible).Hash()) },
-		size:  func(v any) (int, bool) { return io.GetVarSize(v), true }})
+		size:  func(v any) (int, bool) { return io.GetVarSize(v), true }, extra: extensibleExtra})
 	je, jd = jsonOf[payload.P2PNotaryRequest](nil)
 	addKind(&kind{name: "notaryreq", weight: 3, whole: true, build: func(t *tape) any { return buildNotaryRequest(t) }, enc: serEnc,
 		dec: func(b []byte) (any, int, error) {
@@ -626,7 +722,7 @@ func init() {
 	addKind(&kind{name: "mptroot", build: func(t *tape) any { return buildMPTRoot(t) }, enc: serEnc, dec: serDec[state.MPTRoot](nil),
 		ident:   func(v any) string { return "hash=" + hx(v.(*state.MPTRoot).Hash()) },
 		size:    func(v any) (int, bool) { return io.GetVarSize(v), true },
-		jsonEnc: je, jsonDec: jd})
+		jsonEnc: je, jsonDec: jd, extra: mptRootExtra})
 	addKind(&kind{name: "mptnode", weight: 5,
 		build: func(t *tape) any { return buildNode(t, 2, t.bool()) },
 		enc: func(v any, w gio.Writer) error {
@@ -700,6 +796,16 @@ func init() {
 		},
 		size:    func(v any) (int, bool) { return io.GetVarSize(v), true },
 		jsonEnc: je, jsonDec: jd,
+		invariant: func(v any) error {
+			f := v.(*nef.File)
+			if c := f.CalculateChecksum(); c != f.Checksum {
+				return fmt.Errorf("accepted NEF has checksum %08x, its content gives %08x", f.Checksum, c)
+			}
+			if len(f.Script) == 0 || f.Magic != nef.Magic {
+				return fmt.Errorf("accepted NEF has empty script or wrong magic")
+			}
+			return nil
+		},
 	})
 	addKind(&kind{name: "manifest-json", weight: 4, text: true, whole: true,
 		build: func(t *tape) any { return buildManifest(t) },
@@ -815,6 +921,9 @@ func init() {
 		},
 	})
 	addKind(&kind{name: "item-json", weight: 4, text: true, whole: true, encMayFail: true, decMayFail: true,
+		// FromJSON(best precision) expands a number with a decimal exponent e into ~3.3*e bits and prints it again
+		// (quadratic): 1e3000000 takes seconds, 1e100000000 hours. The guard finds the largest exponent in the text.
+		guard: jsonMaxExponent,
 		build: func(t *tape) any { return buildItem(t, true, false) },
 		enc: func(v any, w gio.Writer) error {
 			b, err := stackitem.ToJSON(v.(stackitem.Item))
@@ -981,8 +1090,26 @@ func decodeTTLog(b []byte, n11 bool) (any, int, error) {
 	return l, n, nil
 }
 
+var reExp = regexp.MustCompile(`[eE][+-]?([0-9]+)`)
+
+func jsonMaxExponent(b []byte) uint64 {
+	var m uint64
+	for _, g := range reExp.FindAllSubmatch(b, -1) {
+		d := bytes.TrimLeft(g[1], "0")
+		if len(d) > 12 {
+			return 1 << 40
+		}
+		var v uint64
+		for _, c := range d {
+			v = v*10 + uint64(c-'0')
+		}
+		m = max(m, v)
+	}
+	return m
+}
+
 var errSkip = errors.New("skip")
 
-func sha(b []byte) util.Uint256   { return hash.Sha256(b) }
-func dsha(b []byte) util.Uint256  { return hash.DoubleSha256(b) }
-func uint256Hex(b []byte) string  { return hex.EncodeToString(b) }
+func sha(b []byte) util.Uint256  { return hash.Sha256(b) }
+func dsha(b []byte) util.Uint256 { return hash.DoubleSha256(b) }
+func uint256Hex(b []byte) string { return hex.EncodeToString(b) }
